@@ -279,7 +279,11 @@ class Oracle:
             for p in mj.parts.values():
                 if p.owner is None or p.ready_delivered or not p.ack_delivered:
                     continue
-                td = sim.reaps.get(p.owner)
+                if sim.reaps.get(p.owner) is None:
+                    continue
+                # detection: the supervision step that saw the worker reaped
+                # and the job's ACK consumed
+                td = getattr(p, 'detected_at', None)
                 if td is None:
                     continue
                 if now > td + mj.lost_timeout and sim.last_tick == now \
